@@ -567,6 +567,8 @@ class Body:
             nt = NEWTYPES.get(at)
             if nt and dt == nt[1]:
                 return mk_field(args[0], "0")
+            if at in INT_TYPES and dt in INT_TYPES and at != dt:
+                return ("cast", args[0], at, dt)      # `u16::from(k)` is the lossless `k as u16`
         if path.endswith("Option::unwrap_or_default") and len(args) == 1:
             # numeric default: `.unwrap_or_default()` ≡ `.unwrap_or(0)` (also for the integer newtypes, whose wrapper is not rendered)
             dt = self._place_type(t.get("dest"))
@@ -644,6 +646,7 @@ def _site_after(a, b):
 
 # ---------------------------------------------------------------------- expression constructors
 # single-field tuple structs whose `From`/`Into` impls only wrap / unwrap field 0 (derive_more in melstructs, newtypes in tmelcrypt)
+INT_TYPES = ("u8", "u16", "u32", "u64", "u128", "usize", "i8", "i16", "i32", "i64", "i128", "isize")
 NEWTYPES = {
     "melstructs::CoinValue": ("melstructs::CoinValue", "u128"),
     "melstructs::BlockHeight": ("melstructs::BlockHeight", "u64"),
@@ -663,6 +666,12 @@ TRANSPARENT_SUFFIX = ("::clone", "::into_iter", "::deref", "::as_ref", "::borrow
 
 def simplify_call(path, args, trait_path=None):
     tp = trait_path or path
+    # two spellings the trusted base defines as identical (stdcode: `x.stdcode()` is `serialize(&x).unwrap()`; tmelcrypt: `x.hash()` is `hash_single(x)`)
+    if path in ("std::result::Result::unwrap", "std::result::Result::<T, E>::unwrap", "core::result::Result::unwrap") or path.endswith("Result::unwrap") or path.endswith("Result::expect"):
+        if args and args[0][0] == "call" and args[0][1] == "stdcode::serialize" and len(args[0][2]) == 1:
+            return ("call", "stdcode::StdcodeSerializeExt::stdcode", (args[0][2][0],))
+    if tp == "tmelcrypt::Hashable::hash" and len(args) == 1:
+        return ("call", "tmelcrypt::hash_single", (args[0],))
     if tp in TRANSPARENT_CALLS and len(args) == 1:
         return args[0]
     if tp in ("std::iter::Iterator::next", "std::iter::DoubleEndedIterator::next_back") and len(args) == 1:
